@@ -111,6 +111,29 @@ where
     kani::cover!(n == 0, "c01.write_bits reachable (n = 0)");
 }
 
+/// C19 (feature `checks` only): a fixed-width write whose argument has a bit at
+/// or above the requested width panics. The harness is `#[kani::should_panic]`;
+/// reaching the end of the call is flagged with a non-panic failure (an
+/// arithmetic overflow), which makes a `should_panic` harness fail.
+#[cfg(feature = "checks")]
+pub fn write_bits_dirty_panics<E: VE, W: VW>()
+where
+    u64: CastableInto<W>,
+    Wr<E, W, 10>: BitWrite<E, Error = GhostErr>,
+{
+    let (buffer, space) = any_writer_state::<W>();
+    let v: u64 = kani::any();
+    let n: usize = kani::any();
+    kani::assume(n < 64 && (v >> n) != 0);
+    let mut w = Wr::<E, W, 10>::verif_from_parts(Rec::new(), buffer, space);
+    let _ = w.write_bits(v, n);
+    core::mem::forget(w);
+    // not reached if the argument check fired
+    let a: u8 = kani::any();
+    kani::assume(a == 255);
+    let _overflow = a + 1;
+}
+
 /// Bounded in the observation window only: the ghost backend holds `K` words;
 /// all `x` are explored.
 pub fn write_unary<E: VE, W: VW, const K: usize>()
@@ -314,6 +337,13 @@ macro_rules! c01_for {
             harness!(c01_flush, 2, flush::<$e, $w>());
             harness!(c01_into_inner, 2, into_inner::<$e, $w>());
             harness!(c01_drop, 2, drop_::<$e, $w>());
+            #[cfg(feature = "checks")]
+            #[kani::proof]
+            #[kani::should_panic]
+            #[kani::unwind(11)]
+            pub fn c19_write_bits_dirty_panics() {
+                write_bits_dirty_panics::<$e, $w>()
+            }
         }
     };
 }
